@@ -37,4 +37,94 @@ theorem running_le_busy (s : State) : running s ≤ busy s := by
 
 theorem busy_le_length (s : State) : busy s ≤ s.workers.length := List.countP_le_length
 
+/-! ### progress of the pool while its context is alive -/
+
+/-- as long as the pool's context is not cancelled the job channel is open and no worker has left -/
+def Alive (s : State) : Prop := s.poolCtx = false → s.closed = false ∧ ∀ x ∈ s.workers, x ≠ WState.exited
+
+theorem mem_set_cases {l : List WState} {i : Nat} {v x : WState} (h : x ∈ l.set i v) : x = v ∨ x ∈ l := by
+  rcases List.mem_or_eq_of_mem_set h with h | h
+  · exact Or.inr h
+  · exact Or.inl h
+
+theorem set_ne_exited {l : List WState} {i : Nat} {v : WState} (h2 : ∀ x ∈ l, x ≠ WState.exited) (hv : v ≠ WState.exited) :
+    ∀ x ∈ l.set i v, x ≠ WState.exited := by
+  intro x hx
+  rcases mem_set_cases hx with rfl | hx
+  · exact hv
+  · exact h2 x hx
+
+theorem alive_step {s s' : State} {e : Ev} (ha : Alive s) (h : step s e = some s') : Alive s' := by
+  intro hp
+  cases e <;> simp only [step] at h
+  case enqueue t =>
+    split at h <;> simp at h; subst h; exact ha hp
+  case take w =>
+    split at h <;> simp at h
+    subst h
+    obtain ⟨h1, h2⟩ := ha hp
+    exact ⟨h1, set_ne_exited h2 (by simp)⟩
+  case cmdStart w =>
+    split at h
+    · split at h <;> simp at h
+      subst h
+      obtain ⟨h1, h2⟩ := ha hp
+      exact ⟨h1, set_ne_exited h2 (by simp)⟩
+    · simp at h
+  case cmdEnd w =>
+    split at h <;> simp at h
+    subst h
+    obtain ⟨h1, h2⟩ := ha hp
+    exact ⟨h1, set_ne_exited h2 (by simp)⟩
+  case done w =>
+    split at h <;> simp at h
+    subst h
+    obtain ⟨h1, h2⟩ := ha hp
+    exact ⟨h1, set_ne_exited h2 (by simp)⟩
+  case taskCancel =>
+    split at h <;> simp at h; subst h; exact ha hp
+  case poolCancel =>
+    split at h <;> simp at h; subst h; simp at hp
+  case workerExit w =>
+    split at h
+    · split at h
+      · rename_i hg
+        simp at h; subst h
+        obtain ⟨h1, _⟩ := ha hp
+        rcases hg with hg | hg
+        · rw [hp] at hg; cases hg
+        · rw [h1] at hg; cases hg.1
+      · simp at h
+    · simp at h
+
+theorem reach_alive {w : Nat} {s : State} (h : Reach w s) : Alive s := by
+  induction h with
+  | init => intro _; exact ⟨rfl, fun x hx => by simp [init] at hx; rw [hx.2]; simp⟩
+  | step _ hs ih => exact alive_step ih hs
+
+/-- **no deadlock in the pool while its context is alive**: if a job waits in the channel, some worker can take it, or
+    (all workers busy) a worker can finish its command or its task — for every number of workers ≥ 1, every reachable state -/
+theorem pool_progress {w : Nat} {s : State} (h : Reach w s) (hw : 0 < w) (hp : s.poolCtx = false) (hq : s.queue ≠ []) :
+    ∃ i, (step s (.take i)).isSome = true ∨ (step s (.cmdEnd i)).isSome = true ∨ (step s (.done i)).isSome = true := by
+  obtain ⟨_, hne⟩ := reach_alive h hp
+  have hlen := reach_workers_length h
+  obtain ⟨t, rest, hqe⟩ : ∃ t rest, s.queue = t :: rest := by
+    cases hq' : s.queue with
+    | nil => exact absurd hq' hq
+    | cons t rest => exact ⟨t, rest, rfl⟩
+  by_cases hidle : WState.idle ∈ s.workers
+  · obtain ⟨i, hi⟩ := List.mem_iff_getElem?.1 hidle
+    exact ⟨i, Or.inl (by simp [step, hi, hqe])⟩
+  · have h0 : 0 < s.workers.length := by rw [hlen]; exact hw
+    have hmem : s.workers[0] ∈ s.workers := List.getElem_mem h0
+    have hget : s.workers[0]? = some s.workers[0] := List.getElem?_eq_getElem h0
+    cases hx : s.workers[0] with
+    | idle => rw [hx] at hmem; exact absurd hmem hidle
+    | exited => rw [hx] at hmem; exact absurd rfl (hne _ hmem)
+    | busy t' b =>
+      rw [hx] at hget
+      cases b with
+      | true => exact ⟨0, Or.inr (Or.inl (by simp [step, hget]))⟩
+      | false => exact ⟨0, Or.inr (Or.inr (by simp [step, hget]))⟩
+
 end Grog.Pool
